@@ -274,6 +274,20 @@ def run_case(case, rec):
     last = _cur.get("last")
     if last is None:
         return
+    if f["knotted"] and comp <= 7 and int(core.chash(case)[4:6], 16) % 5 == 0:
+        # the structure read from its BPSEQ text in the layouts other programs write: the list must be that of the
+        # structure written (judged against the original's enumeration)
+        from rnapolis import common
+        from vmon import gen2d
+
+        for name, tv in gen2d.bpseq_text_variants(str(b)):
+            try:
+                res = common.BpSeq.from_string(tv).all_dot_brackets
+            except Exception as e:
+                rec.violation("text.no-crash", {"layout": name, "text": tv[:200], "exception": repr(e)[:200]}, mechanism=f"crash:{type(e).__name__}:text-layout")
+                continue
+            got = {_levels(f, getattr(d, "structure", "")) for d in res}
+            rec.check("text.list-is-the-list-of-the-structure-written", got == last[1], lambda: {"layout": name, "pairs": pairs, "n": n, "got": [d.structure for d in res][:6], "want-count": len(last[1])})
     # "contains the optimal notation": the library's own chosen notation
     try:
         opt = mon2d.make_bpseq(n, pairs).dot_bracket
